@@ -41,6 +41,7 @@ class Trees(object):
     def __init__(self, tag="c02fix"):
         self.root = tlc.workdir(tag)
         self.made = {}
+        self.skipped = {}
         self.applicable = None
 
     def _copy(self, name):
@@ -68,18 +69,21 @@ class Trees(object):
         return self.applicable
 
     def tree(self, slugs):
-        """path of a copy with exactly the patches `slugs` applied (None if they do not apply together)"""
+        """path of a copy with the patches `slugs` applied in name order.  Two listed patches may repair the
+        same lines (one subsumes the other): a patch that no longer applies on top of the earlier ones is
+        skipped and recorded in self.skipped - the earlier patch already changed that code."""
         key = tuple(sorted(slugs))
         if key in self.made:
             return self.made[key]
         fixes = dict(self.applicable_fixes())
         d = self._copy("t%d" % len(self.made))
-        ok = True
+        applied = []
         for s in key:
-            if s not in fixes or not self._apply(d, fixes[s]):
-                ok = False
-                break
-        self.made[key] = d if ok else None
+            if s in fixes and self._apply(d, fixes[s]):
+                applied.append(s)
+            else:
+                self.skipped.setdefault(key, []).append(s)
+        self.made[key] = d if applied else None
         return self.made[key]
 
     def cleanup(self):
